@@ -210,6 +210,7 @@ pub struct RoundCtx {
     pub fixed_loc: FixedLocalizationAdapter,
     pub t0: tokio::time::Instant,
     pub t_div: u64, // 1: log milliseconds, 1000: log seconds (timed tiers)
+    pub real_delay_ms: u64, // discovery blocks for this long in REAL time (wall-clock dependent behaviour: cookie timestamps)
 }
 
 impl RoundCtx {
@@ -303,6 +304,9 @@ impl DiscoveryAdapter for Rec {
         let ret = x.ret("discover").unwrap_or(json!(["t1"]));
         x.push(json!({"a": "discover", "ret": ret}));
         x.lat("discover").await;
+        if x.real_delay_ms > 0 {
+            std::thread::sleep(Duration::from_millis(x.real_delay_ms));
+        }
         if ret == json!(["ERR"]) {
             return Err(adapter_err());
         }
@@ -967,7 +971,8 @@ impl Client {
                         };
                         let ts = j["timestamp"].as_u64().unwrap_or(0);
                         let now = now_secs();
-                        let time_ok = ts <= now + 1 && now <= ts + 5;
+                        // "the current time": when routing took real seconds, a timestamp taken before routing is visibly stale
+                        let time_ok = ts <= now + 1 && now <= ts + if self.ctx.real_delay_ms > 0 { 2 } else { 5 };
                         json!({"k": "StoreCookie", "key": "auth", "who": who, "props": self.conc.props_label(&props), "target": target,
                                "addr": addr, "tagOk": tag_ok, "timeOk": time_ok})
                     }
@@ -1007,6 +1012,7 @@ pub struct RoundCfg {
     pub secret: Option<Vec<u8>>,
     pub client_addr: SocketAddr,
     pub expiry: u64,
+    pub real_delay_ms: u64,
 }
 
 pub struct RoundOut {
@@ -1118,6 +1124,7 @@ pub async fn run_round(
         fixed_loc: FixedLocalizationAdapter::new("en_US".into(), conc.loc_tables.clone()),
         t0,
         t_div: if timed.is_some() { 1000 } else { 1 },
+        real_delay_ms: rc.real_delay_ms,
     });
     let (stream, end) = pipe();
     end.set_t0(t0);
@@ -1414,7 +1421,8 @@ pub fn run_behaviour(idx: usize, b: &Value, seed: u64, var: u64) -> Value {
         }
         let log: Log = Arc::new(Mutex::new(vec![]));
         let rt = tokio::runtime::Builder::new_current_thread().enable_all().start_paused(true).build().unwrap();
-        let rc = RoundCfg { secret: conc.secret(round["secret"].as_str().unwrap_or("none")), client_addr: addr, expiry };
+        let rc = RoundCfg { secret: conc.secret(round["secret"].as_str().unwrap_or("none")), client_addr: addr, expiry,
+                            real_delay_ms: if b["slow"].as_bool().unwrap_or(false) && k == 0 { 3200 } else { 0 } };
         let out = rt.block_on(run_round(conc.clone(), rc, &evs, None, HashMap::new(), &mut jar, log.clone(), var, seed));
         drop(rt);
         let obs = log.lock().unwrap().clone();
@@ -1456,7 +1464,7 @@ pub fn run_timed(idx: usize, rec: &Value, seed: u64, tm: Timed) -> Value {
     let log: Log = Arc::new(Mutex::new(vec![]));
     let mut jar = Jar { auth: None, sess: None };
     let rt = tokio::runtime::Builder::new_current_thread().enable_all().start_paused(true).build().unwrap();
-    let rc = RoundCfg { secret: None, client_addr: conc.client_addr, expiry: conc.expiry };
+    let rc = RoundCfg { secret: None, client_addr: conc.client_addr, expiry: conc.expiry, real_delay_ms: 0 };
     let out = rt.block_on(run_round(conc.clone(), rc, &evs, Some(tm), lats, &mut jar, log.clone(), 0, seed));
     drop(rt);
     let obs = log.lock().unwrap().clone();
@@ -1485,61 +1493,60 @@ pub fn main_timed(args: &[String]) {
     let recs: Vec<Value> = text.lines().filter(|l| !l.trim().is_empty()).map(|l| serde_json::from_str(l).expect("json")).collect();
     std::panic::set_hook(Box::new(|_| {}));
     let _ = passage_protocol::crypto::ENCODED_PUB.len();
-    let next = Arc::new(std::sync::atomic::AtomicUsize::new(0));
     let recs = Arc::new(recs);
-    let results: Arc<Mutex<Vec<(usize, String)>>> = Arc::new(Mutex::new(vec![]));
-    let mut hs = vec![];
-    for _ in 0..threads {
-        let (next, recs, results) = (next.clone(), recs.clone(), results.clone());
-        hs.push(std::thread::spawn(move || {
-            loop {
-                let k = next.fetch_add(1, std::sync::atomic::Ordering::SeqCst);
-                if k >= recs.len() {
-                    break;
+    let recs2 = recs.clone();
+    let r = crate::pool::run_pool(
+        recs.len(),
+        threads,
+        Duration::from_secs(30),
+        move |k| {
+            let recs = &recs2;
+            let rec = &recs[k];
+            let mut tm = Timed::from_json(&rec["sched"]);
+            for key in ["seg", "wstall", "wsplit", "plugin", "pipeline"] {
+                // these may also sit next to "sched"
+                if rec.get(key).is_some() {
+                    let mut merged = rec["sched"].clone();
+                    merged[key] = rec[key].clone();
+                    let t2 = Timed::from_json(&merged);
+                    tm.seg = tm.seg.or(t2.seg);
+                    tm.wstall = tm.wstall.or(t2.wstall);
+                    tm.wsplit = tm.wsplit.or(t2.wsplit);
+                    tm.plugin = tm.plugin.or(t2.plugin);
+                    tm.pipeline = tm.pipeline.or(t2.pipeline);
                 }
-                let rec = &recs[k];
-                let mut tm = Timed::from_json(&rec["sched"]);
-                for key in ["seg", "wstall", "wsplit", "plugin", "pipeline"] {
-                    // these may also sit next to "sched"
-                    if rec.get(key).is_some() {
-                        let mut merged = rec["sched"].clone();
-                        merged[key] = rec[key].clone();
-                        let t2 = Timed::from_json(&merged);
-                        tm.seg = tm.seg.or(t2.seg);
-                        tm.wstall = tm.wstall.or(t2.wstall);
-                        tm.wsplit = tm.wsplit.or(t2.wsplit);
-                        tm.plugin = tm.plugin.or(t2.plugin);
-                        tm.pipeline = tm.pipeline.or(t2.pipeline);
-                    }
-                }
-                let var = run_timed(k, rec, seed, tm.clone());
-                let mut o = json!({"line": k + 1, "sched": rec["sched"], "seg": rec.get("seg").cloned().unwrap_or(json!("none")),
-                                   "wstall": rec.get("wstall").cloned().unwrap_or(json!("none")), "wsplit": rec.get("wsplit").cloned().unwrap_or(json!(0)), "stalled": rec.get("wstall").is_some(),
-                                   "obs": var["obs"], "result": var["result"], "why": var["why"], "panic": var["panic"], "hang": var["hang"], "leftover": var["leftover"],
-                                   "i": k, "var": 0,
-                                   "hist": [{"secret": "none", "rc": {"ip": "first", "age": "first", "secret": "first"}, "obs": var["obs"], "result": var["result"],
-                                             "panic": var["panic"], "hang": false, "ranAfterEof": false, "maxAlloc": 0, "maxLen": 10000}]});
-                if pair {
-                    // reference: the same actions, the segmented frame delivered whole at the time its last byte arrives, transport accepts whole writes
-                    let mut rf = tm.clone();
-                    if let Some((f, _, p)) = rf.seg.clone() {
-                        rf.seg = Some((f, 0, p));
-                    }
-                    rf.wstall = None;
-                    rf.wsplit = None;
-                    rf.pipeline = None;
-                    let r = run_timed(k, rec, seed, rf);
-                    o["ref"] = json!({"obs": r["obs"], "result": r["result"], "why": r["why"], "panic": r["panic"]});
-                }
-                results.lock().unwrap().push((k, o.to_string()));
             }
-        }));
-    }
-    for h in hs {
-        h.join().unwrap();
-    }
-    let mut r = std::mem::take(&mut *results.lock().unwrap());
-    r.sort();
+            let var = run_timed(k, rec, seed, tm.clone());
+            let mut o = json!({"line": k + 1, "sched": rec["sched"], "seg": rec.get("seg").cloned().unwrap_or(json!("none")),
+                               "wstall": rec.get("wstall").cloned().unwrap_or(json!("none")), "wsplit": rec.get("wsplit").cloned().unwrap_or(json!(0)), "stalled": rec.get("wstall").is_some(),
+                               "obs": var["obs"], "result": var["result"], "why": var["why"], "panic": var["panic"], "hang": var["hang"], "leftover": var["leftover"],
+                               "i": k, "var": 0,
+                               "hist": [{"secret": "none", "rc": {"ip": "first", "age": "first", "secret": "first"}, "obs": var["obs"], "result": var["result"],
+                                         "panic": var["panic"], "hang": false, "ranAfterEof": false, "maxAlloc": 0, "maxLen": 10000}]});
+            if pair {
+                // reference: the same actions, the segmented frame delivered whole at the time its last byte arrives, transport accepts whole writes
+                let mut rf = tm.clone();
+                if let Some((f, _, p)) = rf.seg.clone() {
+                    rf.seg = Some((f, 0, p));
+                }
+                rf.wstall = None;
+                rf.wsplit = None;
+                rf.pipeline = None;
+                let r = run_timed(k, rec, seed, rf);
+                o["ref"] = json!({"obs": r["obs"], "result": r["result"], "why": r["why"], "panic": r["panic"]});
+            }
+            o.to_string()
+        },
+        |k| {
+            let rec = &recs[k];
+            let hist = json!([{"secret": "none", "rc": {"ip": "first", "age": "first", "secret": "first"}, "obs": [], "result": "running",
+                               "panic": false, "hang": true, "ranAfterEof": true, "maxAlloc": 0, "maxLen": 10000}]);
+            json!({"line": k + 1, "sched": rec["sched"], "seg": rec.get("seg").cloned().unwrap_or(json!("none")), "wstall": "none", "wsplit": 0, "stalled": rec.get("wstall").is_some(),
+                   "obs": [], "result": "running", "why": "handler never yielded (spinning): abandoned by the harness watchdog after 30 s", "panic": false, "hang": true, "leftover": 0,
+                   "i": k, "var": 0, "hist": hist, "ref": {"obs": [], "result": "unknown", "why": "", "panic": false}, "spin": true})
+            .to_string()
+        },
+    );
     let mut out = String::new();
     for (_, l) in r {
         out.push_str(&l);
@@ -1593,30 +1600,28 @@ pub fn main(args: &[String]) {
     let _ = run_behaviour(0, &warm, 0, 0);
     let _ = other_keypair();
 
-    let next = Arc::new(std::sync::atomic::AtomicUsize::new(0));
     let items = Arc::new(items);
     let behaviours = Arc::new(behaviours);
-    let results: Arc<Mutex<Vec<(usize, String)>>> = Arc::new(Mutex::new(vec![]));
-    let mut hs = vec![];
-    for _ in 0..threads {
-        let (next, items, behaviours, results) = (next.clone(), items.clone(), behaviours.clone(), results.clone());
-        hs.push(std::thread::spawn(move || {
-            loop {
-                let k = next.fetch_add(1, std::sync::atomic::Ordering::SeqCst);
-                if k >= items.len() {
-                    break;
-                }
-                let (i, var) = items[k];
-                let v = run_behaviour(i, &behaviours[i], seed, var);
-                results.lock().unwrap().push((k, v.to_string()));
-            }
-        }));
-    }
-    for h in hs {
-        h.join().unwrap();
-    }
-    let mut r = std::mem::take(&mut *results.lock().unwrap());
-    r.sort();
+    let (items2, behaviours2) = (items.clone(), behaviours.clone());
+    let r = crate::pool::run_pool(
+        items.len(),
+        threads,
+        Duration::from_secs(30),
+        move |k| {
+            let (i, var) = items2[k];
+            run_behaviour(i, &behaviours2[i], seed, var).to_string()
+        },
+        |k| {
+            // the handler never yielded: report the behaviour as still running after everything was sent (and after EOF)
+            let (i, var) = items[k];
+            let hist: Vec<Value> = behaviours[i]["hist"].as_array().cloned().unwrap_or_default().into_iter().map(|r| {
+                let obs: Vec<Value> = r["obs"].as_array().cloned().unwrap_or_default().into_iter().filter(|e| e["e"] == "rx").collect();
+                json!({"secret": r["secret"], "rc": r["rc"], "obs": obs, "result": "running", "why": "handler never yielded (spinning): abandoned by the harness watchdog after 30 s",
+                       "panic": false, "hang": true, "ranAfterEof": true, "leftover": 0, "maxAlloc": 0, "peakLive": 0, "maxLen": 10000, "var": ""})
+            }).collect();
+            json!({"i": i, "var": var, "hist": hist, "conc": {}, "spin": true}).to_string()
+        },
+    );
     let mut out = String::new();
     for (_, l) in r {
         out.push_str(&l);
